@@ -44,6 +44,18 @@ CLAIMED = {
         note="Trusted: the typing table in mc/props/c03.py and reftype in mc/core/refsem.py. Refusing a "
              "well-typed application is outside the statement and only counted (listed in the evidence notes).",
         design="§3 C03"),
+    "C06": dict(
+        category="exploration", engine="table",
+        technique="exhaustive table of derived constructors and infix forms x calling conventions x arities, each "
+                  "evaluated under every interpretation of fresh operands (all BV values of the width, all Bool tuples) "
+                  "against a direct Python definition of the named function",
+        text="Each derived constructor / infix operator / FNode method is applied to fresh symbols or Python literals "
+             "in a fresh infix-enabled environment; the formula pySMT builds is evaluated by the reference semantics "
+             "under every interpretation and compared with an independently written Python definition of the function "
+             "the name denotes (exhaustive for BV widths 1-3, thorough 1-5, and Bool; Int -3..3, six Reals).",
+        note="Trusted: the per-function definitions in mc/props/c06.py and mc/core/refsem.py. Int/Real arguments are "
+             "confined to the pools; operands are symbols or literals, not compound terms.",
+        design="§3 C06"),
     "C16": dict(
         category="model_checking", engine="explorer",
         technique="exhaustive enumeration of all legal SMT-LIB command sequences up to a length bound against an "
@@ -66,6 +78,8 @@ for i in range(1, 21):
     PENDING["C%02d" % i] = "check designed in DESIGN.md §3 but not built yet in this revision; no claim is made"
 
 ENGINES = [
+    dict(name="table", path="mc/props/c06.py", serves_properties=["C06"],
+         kind_free_text="exhaustive table-driven enumeration over finite operand domains"),
     dict(name="explorer", path="mc/core/explorer.py", serves_properties=["C16"],
          kind_free_text="explicit-state breadth-first search over API histories replayed on fresh real objects in lock-step with a reference model"),
     dict(name="sweep", path="mc/core/sweep.py", serves_properties=["C01", "C02", "C03"],
